@@ -6,6 +6,7 @@
 # only; the registered checks always run in /verif against /repo.
 set -u
 D=$(readlink -f "$1"); shift
+DEMO="$D/demo_test.go"; [ -f "$DEMO" ] || DEMO="$D/demo_test.go.txt"
 T=$(mktemp -d /tmp/meval-XXXXXX)
 export GOFLAGS=-mod=mod GOPROXY=off
 cleanup() { git -C /repo worktree remove --force "$T/repo" >/dev/null 2>&1; rm -rf "$T"; }
@@ -15,11 +16,11 @@ if ! git -C "$T/repo" apply "$D/patch.diff"; then echo "PATCH-DOES-NOT-APPLY"; e
 # 1. the change must pass the existing suite
 if (cd "$T/repo" && go test -vet=off -count=1 ./... >"$T/suite.log" 2>&1); then echo "suite: pass"; else echo "suite: FAIL (mutant rejected)"; tail -5 "$T/suite.log"; exit 2; fi
 # 2. its demonstration must fail with it and pass without it
-if [ -f "$D/demo_test.go" ]; then
-  cp "$D/demo_test.go" "$T/repo/zz_demo_test.go"
+if [ -f "$DEMO" ]; then
+  cp "$DEMO" "$T/repo/zz_demo_test.go"
   if (cd "$T/repo" && go test -vet=off -count=1 -run TestDemo ./ >"$T/demo1.log" 2>&1); then echo "demo with change: PASSES (mutant rejected)"; exit 2; else echo "demo with change: fails (as required)"; fi
   rm "$T/repo/zz_demo_test.go"
-  git -C "$T/repo" apply -R "$D/patch.diff"; cp "$D/demo_test.go" "$T/repo/zz_demo_test.go"
+  git -C "$T/repo" apply -R "$D/patch.diff"; cp "$DEMO" "$T/repo/zz_demo_test.go"
   if (cd "$T/repo" && go test -vet=off -count=1 -run TestDemo ./ >"$T/demo0.log" 2>&1); then echo "demo without change: passes (as required)"; else echo "demo without change: FAILS (mutant rejected)"; tail -5 "$T/demo0.log"; exit 2; fi
   rm "$T/repo/zz_demo_test.go"; git -C "$T/repo" apply "$D/patch.diff"
 fi
